@@ -31,6 +31,13 @@ Theorem C09_count_monotone : forall (f : factory) (es : list edge) (g : graph),
   all_nodes es items -> hits g m items = Ok hs -> ancestor es d t -> in_module m t = true -> (kcount d hs <= kcount t hs)%nat.
 Proof. exact count_mono. Qed.
 
+(* the root is counted once for every present annotation, so no count exceeds the root's: c(t) <= c(root) *)
+Theorem C09_root_count_is_maximal : forall (f : factory) (es : list edge) (g : graph),
+  WfInput es -> create f es = Ok g ->
+  forall (m : option (list key)) (items : corpus) (hs : list key) (root t : key),
+  m = None -> all_nodes es items -> hits g m items = Ok hs -> g_root g = Ok root -> (kcount t hs <= kcount root hs)%nat.
+Proof. exact count_root_max. Qed.
+
 (* excluded annotations and the order of items do not matter *)
 Theorem C09_excluded_and_order_irrelevant : forall (f : factory) (es : list edge) (g : graph),
   WfInput es -> create f es = Ok g ->
